@@ -48,6 +48,9 @@ def _work(i, conn, timeout, seed):
             variants.insert(0, ("z3/nlabs", None))
         elif by.get("nlabs", True):
             variants.insert(1, ("z3/nlabs", None))
+        pref = by.get("prefer")
+        if pref:
+            variants.sort(key=lambda x: 0 if x[0].endswith(pref) else 1)
         notes = []
         for nm, v in variants:
             if v is None:
